@@ -254,3 +254,48 @@ func VfC05_SpellingClasses() {
 	vfObserveStr("src", src)
 	vfAssert("C05.spelling-classes.other-spelling-is-undefined", vfAnd(err != nil, m == nil))
 }
+
+// hC05GlobalEntity: the text of a top-level entity of the global namespace of
+// kind k named n (@t and @r are defined by the caller).
+func hC05GlobalEntity(k int, n string) string {
+	switch k {
+	case 0:
+		return "@" + n + " = global i32 0\n"
+	case 1:
+		return "declare void @" + n + "()\n"
+	case 2:
+		return "define void @" + n + "() {\n\tret void\n}\n"
+	case 3:
+		return "@" + n + " = alias i32, i32* @t\n"
+	case 4:
+		return "@" + n + " = ifunc void (), void ()* ()* @r\n"
+	}
+	return "declare i32 @" + n + "(i32)\n" // a declaration with another signature
+}
+
+// VfC05_GlobalPairs: every ordered pair of kinds of definition in the global
+// namespace (global variable, declaration, definition, alias, ifunc, a
+// declaration with another signature): the same name twice is an error
+// whatever the two kinds and their order are (LLVM has no forward
+// declaration that a later definition may complete: `declare @f` followed by
+// `define @f` is "invalid redefinition of function"), two names are accepted.
+//
+//vf:unwind 300
+//vf:shards 12
+func VfC05_GlobalPairs() {
+	k1 := vfChoice("first", 6)
+	k2 := vfChoice("second", 6)
+	n1, n2 := hLetterIn("n1", 'a', 'c'), hLetterIn("n2", 'a', 'c')
+	src := "@t = global i32 0\ndeclare void ()* @r()\n" + hC05GlobalEntity(k1, n1)
+	// something may stand between the two, and a use of the name may follow
+	if vfChoice("between", 2) == 1 {
+		src += "@mid = global i8 1\n"
+	}
+	src += hC05GlobalEntity(k2, n2)
+	m, err := ParseString("t.ll", src)
+	vfReach("C05.global-pairs")
+	vfObserveStr("src", src)
+	same := n1 == n2
+	vfAssert("C05.global-pairs.duplicate-is-error", vfImp(same, vfAnd(err != nil, m == nil)))
+	vfAssert("C05.global-pairs.distinct-is-accepted", vfImp(vfNot(same), vfAnd(err == nil, m != nil)))
+}
